@@ -7,21 +7,22 @@ From Coq Require Import List Arith Lia Bool.
 Import ListNotations.
 From BC Require Import Conc.Lin Conc.RollLTS Conc.RollSafe.
 
-Inductive ropn := RPut (k : key) (v : val) | RGet (k : key).
-Inductive rres := RRUnit | RRVal (v : option val).
+Inductive ropn := RPut (k : key) (v : val) | RGet (k : key) | RDel (k : key).
+Inductive rres := RRUnit | RRVal (v : option val) | RRBool (b : bool).
 Definition gst := key -> option val.
 
 Definition rspec (g : gst) (o : ropn) : gst * rres :=
   match o with
   | RPut k v => (upd g k (Some v), RRUnit)
   | RGet k => (g, RRVal (g k))
+  | RDel k => (upd g k None, RRBool (match g k with Some _ => true | None => false end))
   end.
 Definition ov_eqb (a b : option val) : bool :=
   match a, b with Some x, Some y => Nat.eqb x y | None, None => true | _, _ => false end.
 Definition rres_eqb (a b : rres) : bool :=
-  match a, b with RRUnit, RRUnit => true | RRVal x, RRVal y => ov_eqb x y | _, _ => false end.
+  match a, b with RRUnit, RRUnit => true | RRVal x, RRVal y => ov_eqb x y | RRBool x, RRBool y => Bool.eqb x y | _, _ => false end.
 Lemma rres_eqb_refl a : rres_eqb a a = true.
-Proof. destruct a as [|[x|]]; cbn; auto using Nat.eqb_refl. Qed.
+Proof. destruct a as [|[x|]|b]; cbn; auto using Nat.eqb_refl, Bool.eqb_reflx. Qed.
 
 Notation mon := (mon gst ropn rres).
 Notation mstep := (mstep gst ropn rres rspec rres_eqb).
@@ -32,9 +33,14 @@ Notation minit := (minit gst ropn rres).
 Definition project1 (s : rst) (e : rev) : list (iev ropn rres) :=
   match e with
   | WAppend k v => [IInv _ _ 0 (RPut k v)]
+  | WAppendDel k => [IInv _ _ 0 (RDel k)]
   | WRoll => []
   | WPublish => [ICommit _ _ 0]
-  | WReturn => [IRet _ _ 0 RRUnit]
+  | WReturn => match wstate s with
+               | WDone None => [IRet _ _ 0 RRUnit]
+               | WDone (Some b) => [IRet _ _ 0 (RRBool b)]
+               | _ => []
+               end
   | GLookup t k => [IInv _ _ (S t) (RGet k); ICommit _ _ (S t)]
   | GRead _ => []
   | GReturn t => match rreaders s t with GDone _ v _ => [IRet _ _ (S t) (RRVal v)] | _ => [] end
@@ -50,7 +56,8 @@ Definition sim (s : rst) (m : mon) : Prop :=
   match wstate s with
   | WIdle => status _ _ _ m 0 = Idle _ _
   | WAppended k loc => exists id v, status _ _ _ m 0 = Pending _ _ id (RPut k v) /\ rvalue_at s loc = Some v
-  | WDone => exists id o, status _ _ _ m 0 = Committed _ _ id o RRUnit
+  | WAppendedDel k => exists id, status _ _ _ m 0 = Pending _ _ id (RDel k)
+  | WDone d => exists id o, status _ _ _ m 0 = Committed _ _ id o (match d with None => RRUnit | Some b => RRBool b end)
   end /\
   forall t, match rreaders s t with
             | GIdle => status _ _ _ m (S t) = Idle _ _
@@ -69,53 +76,77 @@ Proof. unfold set_status. now rewrite Nat.eqb_refl. Qed.
 Lemma rvalue_ext s s' loc v : ext (rfiles s) (rfiles s') -> (exists w, has (rfiles s) (fst loc) (snd loc) w) -> rvalue_at s loc = v -> rvalue_at s' loc = v.
 Proof.
   intros He (w & Hh) Hv. destruct loc as [f p]. cbn [fst snd] in Hh.
-  rewrite (rvalue_has s f p w Hh) in Hv. subst v. apply rvalue_has. eapply has_ext; eassumption.
+  assert (Hvw : v = w) by (rewrite <- Hv; exact (rvalue_has s f p w Hh)).
+  clear Hv. subst v. apply rvalue_has. eapply has_ext; eassumption.
 Qed.
 
 Lemma rgmap_ext s s' : RI s -> ext (rfiles s) (rfiles s') -> ridx s' = ridx s -> forall k, rgmap s' k = rgmap s k.
 Proof.
   intros I He Hi k. unfold rgmap. rewrite Hi. destruct (ridx s k) as [[f p]|] eqn:E; [|reflexivity].
-  apply (rvalue_ext s s' (f, p)); [exact He| |reflexivity]. exact (ri_idx _ I _ _ _ E).
+  apply (rvalue_ext s s' (f, p)); [exact He| |reflexivity]. destruct (ri_idx _ I _ _ _ E) as (v & Hh). eauto.
 Qed.
 
 Theorem step_sim s e s' m : RI s -> sim s m -> rstep true s e = Some s' ->
   exists m', mrun m (project1 s e) = Some m' /\ sim s' m'.
 Proof.
   intros I (Hg & Hw & Hrd) Hs. pose proof (step_RI s e s' I Hs) as I'.
-  destruct e as [k v| | | |t k|t|t]; cbn [rstep] in Hs; cbn [project1].
+  destruct e as [k v|k| | | |t k|t|t]; cbn [rstep] in Hs; cbn [project1].
   - (* append: the put is invoked *)
     destruct (wstate s) eqn:Ew; try discriminate. destruct (rfiles s (ractive s)) as [recs|] eqn:Ea; [|discriminate]. injection Hs as <-.
     cbn [Lin.mrun Lin.mstep]. rewrite Hw. eexists. split; [reflexivity|].
-    pose proof (ext_append _ _ _ (mkRRec k v) Ea) as He.
+    pose proof (ext_append _ _ _ (mkRRec k (Some v)) Ea) as He.
     split; [|split].
     + cbn [ghost]. intros k0. rewrite Hg. symmetry. apply (rgmap_ext s); [exact I|exact He|reflexivity].
     + cbn [wstate status]. rewrite set_same. exists (clock _ _ _ m), v. split; [reflexivity|].
       unfold rvalue_at. cbn [fst snd rfiles]. rewrite upd_same. rewrite nth_error_app2 by lia. rewrite Nat.sub_diag. reflexivity.
     + intros t. cbn [rreaders status]. unfold set_status. cbn [Nat.eqb]. exact (Hrd t).
-  - (* roll *)
-    destruct (wstate s) as [|k loc|] eqn:Ew; try discriminate. destruct (rfiles s (S (ractive s))) eqn:En; [discriminate|]. injection Hs as <-.
-    cbn [Lin.mrun]. exists m. split; [reflexivity|]. pose proof (ext_create _ _ En) as He.
+  - (* append a tombstone: the delete is invoked *)
+    destruct (wstate s) eqn:Ew; try discriminate. destruct (rfiles s (ractive s)) as [recs|] eqn:Ea; [|discriminate]. injection Hs as <-.
+    cbn [Lin.mrun Lin.mstep]. rewrite Hw. eexists. split; [reflexivity|].
+    pose proof (ext_append _ _ _ (mkRRec k None) Ea) as He.
     split; [|split].
-    + intros k0. rewrite Hg. symmetry. apply (rgmap_ext s); [exact I|exact He|reflexivity].
-    + cbn [wstate]. destruct Hw as (id & v & Hst & Hv). exists id, v. split; [exact Hst|].
-      apply (rvalue_ext s _ loc); [exact He| |exact Hv]. destruct loc as [f p]. exact (ri_wr _ I _ _ _ Ew).
-    + exact Hrd.
-  - (* publish: the put commits *)
-    destruct (wstate s) as [|k [f p]|] eqn:Ew; try discriminate. injection Hs as <-.
-    destruct Hw as (id & v & Hst & Hv). cbn [Lin.mrun Lin.mstep]. rewrite Hst. cbn [rspec]. eexists. split; [reflexivity|].
-    split; [|split].
-    + cbn [ghost]. intros k0. unfold rgmap. cbn [ridx]. unfold upd at 1 2. destruct (Nat.eqb k0 k) eqn:E.
-      * symmetry. exact Hv.
-      * apply Hg.
+    + cbn [ghost]. intros k0. rewrite Hg. symmetry. apply (rgmap_ext s); [exact I|exact He|reflexivity].
     + cbn [wstate status]. rewrite set_same. eauto.
     + intros t. cbn [rreaders status]. unfold set_status. cbn [Nat.eqb]. exact (Hrd t).
-  - (* the put returns *)
-    destruct (wstate s) eqn:Ew; try discriminate. injection Hs as <-.
-    destruct Hw as (id & o & Hst). cbn [Lin.mrun Lin.mstep]. rewrite Hst. cbn [rres_eqb]. eexists. split; [reflexivity|].
-    split; [|split].
-    + exact Hg.
-    + cbn [wstate status]. now rewrite set_same.
-    + intros t. cbn [rreaders status]. unfold set_status. cbn [Nat.eqb]. exact (Hrd t).
+  - (* roll *)
+    destruct (wstate s) as [|k loc|k|d] eqn:Ew; try discriminate.
+    + destruct (rfiles s (S (ractive s))) eqn:En; [discriminate|]. injection Hs as <-.
+      cbn [Lin.mrun]. exists m. split; [reflexivity|]. pose proof (ext_create _ _ En) as He.
+      split; [|split].
+      * intros k0. rewrite Hg. symmetry. apply (rgmap_ext s); [exact I|exact He|reflexivity].
+      * cbn [wstate]. destruct Hw as (id & v & Hst & Hv). exists id, v. split; [exact Hst|].
+        apply (rvalue_ext s _ loc); [exact He| |exact Hv]. destruct loc as [f p]. destruct (ri_wr _ I _ _ _ Ew) as (v0 & Hh). eauto.
+      * exact Hrd.
+    + destruct (rfiles s (S (ractive s))) eqn:En; [discriminate|]. injection Hs as <-.
+      cbn [Lin.mrun]. exists m. split; [reflexivity|]. pose proof (ext_create _ _ En) as He.
+      split; [|split].
+      * intros k0. rewrite Hg. symmetry. apply (rgmap_ext s); [exact I|exact He|reflexivity].
+      * cbn [wstate]. exact Hw.
+      * exact Hrd.
+  - (* publish: the put or the delete commits *)
+    destruct (wstate s) as [|k [f p]|k|d] eqn:Ew; try discriminate.
+    + injection Hs as <-.
+      destruct Hw as (id & v & Hst & Hv). cbn [Lin.mrun Lin.mstep]. rewrite Hst. cbn [rspec]. eexists. split; [reflexivity|].
+      split; [|split].
+      * cbn [ghost]. intros k0. unfold rgmap. cbn [ridx]. unfold upd at 1 2. destruct (Nat.eqb k0 k) eqn:E.
+        -- symmetry. exact Hv.
+        -- apply Hg.
+      * cbn [wstate status]. rewrite set_same. eauto.
+      * intros t. cbn [rreaders status]. unfold set_status. cbn [Nat.eqb]. exact (Hrd t).
+    + injection Hs as <-.
+      destruct Hw as (id & Hst). cbn [Lin.mrun Lin.mstep]. rewrite Hst. cbn [rspec]. eexists. split; [reflexivity|].
+      split; [|split].
+      * cbn [ghost]. intros k0. unfold rgmap. cbn [ridx]. unfold upd at 1 2. destruct (Nat.eqb k0 k) eqn:E; [reflexivity|apply Hg].
+      * cbn [wstate status]. rewrite set_same. exists id, (RDel k). f_equal. f_equal. rewrite Hg. unfold rgmap.
+        destruct (ridx s k) as [[f p]|] eqn:Ei; [|reflexivity].
+        destruct (ri_idx _ I _ _ _ Ei) as (v & Hh). pose proof (rvalue_has s f p _ Hh) as Hv.
+        assert (Hx : forall x : option val, x = Some v -> match x with Some _ => true | None => false end = true) by (intros x ->; reflexivity).
+        apply Hx. exact Hv.
+      * intros t. cbn [rreaders status]. unfold set_status. cbn [Nat.eqb]. exact (Hrd t).
+  - (* the put or the delete returns *)
+    destruct (wstate s) as [| | |d] eqn:Ew; try discriminate. injection Hs as <-.
+    destruct Hw as (id & o & Hst). destruct d as [b|]; cbn [Lin.mrun Lin.mstep]; rewrite Hst; rewrite rres_eqb_refl; (eexists; split; [reflexivity|]);
+      (split; [exact Hg|]; split; [cbn [wstate status]; now rewrite set_same|]; intros t; cbn [rreaders status]; unfold set_status; cbn [Nat.eqb]; exact (Hrd t)).
   - (* lookup: the get is invoked and commits *)
     destruct (rreaders s t) eqn:Er; try discriminate. injection Hs as <-.
     pose proof (Hrd t) as Ht. rewrite Er in Ht.
@@ -133,7 +164,7 @@ Proof.
       * match type of Hs with (if ?b then _ else _) = _ => destruct b end; injection Hs as <-.
         -- split; [exact Hg|]. split; [exact Hw|]. intros t0. cbn [rreaders]. unfold upd. destruct (Nat.eqb t0 t) eqn:E.
            ++ apply Nat.eqb_eq in E. subst t0. pose proof (Hrd t) as Ht. rewrite Er in Ht. destruct Ht as (id & Ht).
-              assert (Hd : option_map rv (nth_error recs p) = c).
+              assert (Hd : match nth_error recs p with Some r => rv r | None => None end = c).
               { apply (ri_done _ I' t k). cbn [rreaders]. now rewrite upd_same. }
               rewrite Hd. eauto.
            ++ exact (Hrd t0).
@@ -167,7 +198,7 @@ Qed.
 Lemma sim_init : sim rinit (minit (fun _ => None)).
 Proof. split; [reflexivity|]. split; [reflexivity|]. intros t. reflexivity. Qed.
 
-(* Every schedule of puts (with replacement of the active file between append and publication) and gets is
+(* Every schedule of puts, deletes (with replacement of the active file between append and publication) and gets is
    linearizable: the monitor accepts its history; the commit order replays, from the empty map, to a map that
    agrees with what the index denotes, reproducing every result; it contains every returned operation and
    respects real time. *)
